@@ -15,7 +15,12 @@ Traces == JsonDeserialize(IOEnv.TRACE_FILE)
 VARIABLES tid, tpc
 T == Traces[tid]
 TraceInit == tid \in 1..Len(Traces) /\ tpc = "call"
-TraceReturn == /\ tpc = "call" /\ T.out = "ok" /\ T.got = T.expected
+(* delegation clause (T.kind = "deleg"): the facade method returned exactly what the core grouping returns for the      *)
+(* selected value columns (T.eq = 1: same labels, column names and numbers, as compared by the driver); the core            *)
+(* operations themselves are specified by GBCore / GBSelect / GBEma / GBStats and judged by their own checks.              *)
+(* A call the core engine itself refuses (T.out = "core_raise") is not a statement about the facade.                       *)
+DelegationOk == IF "eq" \in DOMAIN T THEN (T.out = "core_raise" \/ T.eq = 1) ELSE TRUE
+TraceReturn == /\ tpc = "call" /\ T.out \in {"ok", "core_raise"} /\ T.got = T.expected /\ DelegationOk
                /\ PrintT(<<"ACCEPT", tid>>) /\ tpc' = "done" /\ UNCHANGED tid
 TraceSpec == TraceInit /\ [][TraceReturn]_<<tid, tpc>>
 =============================================================================
